@@ -1,5 +1,5 @@
 INFO = {
     "level": "proof",
-    "level_text": "placeholder",
-    "level_note": "placeholder",
+    "level_text": "Contracts on pick_up_trip (committed iff vehicle and request exist; fare credited exactly once to the picking vehicle; request removed; exactly one PICKUP report iff committed), drop_off_trip (every passenger's destination is the vehicle's cell; state unchanged; one DROPOFF report iff committed), ServicingTrip.enter (only from DispatchTrip, at the origin, with the request present) and ServicingTrip.exit (refuses while the route is not exhausted: no instruction can divert a vehicle carrying passengers), remove_request; all for every state.",
+    "level_note": 'the history statement (exactly one of picked/cancelled/waiting over a whole run) is the composition of these per-call contracts with the frame `no other kernel function changes the key set of requests`; CancelRequests/UpdateRequestsFromFile loops are covered under C11 where in reach; request ids unique in the input; pooling activities assumed.',
 }
